@@ -635,6 +635,77 @@ func swAli(c swCase) gen.Ali {
 // provenance of the last runLibrary call (classes only)
 var lastProvenance string
 
+type setters interface {
+	SetGapOpenScore(float64)
+	SetGapExtendScore(float64)
+	SetScore(float64, float64)
+}
+
+// configure applies the case's scheme to an aligner (drawn setter history, or the three setters)
+func configure(a setters, c swCase) {
+	if len(c.Calls) > 0 {
+		for _, call := range c.Calls {
+			switch call.Kind {
+			case "open":
+				a.SetGapOpenScore(call.A)
+			case "extend":
+				a.SetGapExtendScore(call.A)
+			case "score":
+				a.SetScore(call.A, call.B)
+			}
+		}
+	} else {
+		if c.SetScoreFirst && !c.Sch.Matrix {
+			a.SetScore(c.Sch.Match, c.Sch.Mismatch)
+		}
+		a.SetGapOpenScore(c.Sch.Open)
+		a.SetGapExtendScore(c.Sch.Extend)
+		if !c.SetScoreFirst && !c.Sch.Matrix {
+			a.SetScore(c.Sch.Match, c.Sch.Mismatch)
+		}
+	}
+}
+
+// checkEmpty: one or both sequences have no residue. No local alignment exists; the statement's
+// clauses leave two behaviours: Alignment() reports an error, or it returns the empty alignment (two
+// empty rows, length 0, all counts 0, score 0). Anything else - a panic (turned into a violation by
+// pbt.Run), rows with content - is a violation. Both algorithms; the inputs stay as they were
+func checkEmpty(c swCase) (o pbt.Outcome, err error) {
+	for _, algo := range []int{align.ALIGN_ALGO_SW, align.ALIGN_ALGO_ATG} {
+		s1 := align.NewSequence("query", []uint8(c.S1), "comment one")
+		s2 := align.NewSequence("subject", []uint8(c.S2), "comment two")
+		a := align.NewPwAligner(s1, s2, algo)
+		configure(a, c)
+		al, e := a.Alignment()
+		if s1.Sequence() != c.S1 || s2.Sequence() != c.S2 || s1.Name() != "query" || s2.Name() != "subject" || s1.Comment() != "comment one" || s2.Comment() != "comment two" {
+			return o, fmt.Errorf("empty sequence, algorithm %d: the input sequences were modified: %s=%q %s=%q", algo, s1.Name(), s1.Sequence(), s2.Name(), s2.Sequence())
+		}
+		if e != nil {
+			o.Class("empty-sequence:error")
+			continue
+		}
+		m, mm, g := a.NbMatches(), a.NbMisMatches(), a.NbGaps()
+		if len(a.Seq1Ali()) != 0 || len(a.Seq2Ali()) != 0 || a.Length() != 0 || m != 0 || mm != 0 || g != 0 || a.MaxScore() != 0 {
+			return o, fmt.Errorf("empty sequence (%q / %q), algorithm %d: no error and rows %q / %q, length %d, counts %d/%d/%d, score %g; expected an error or the empty alignment", c.S1, c.S2, algo, a.Seq1Ali(), a.Seq2Ali(), a.Length(), m, mm, g, a.MaxScore())
+		}
+		if al != nil {
+			for _, r := range gen.Snapshot(al) {
+				if r.Seq != "" {
+					return o, fmt.Errorf("empty sequence (%q / %q), algorithm %d: the returned Alignment holds %s", c.S1, c.S2, algo, gen.Show(gen.Snapshot(al)))
+				}
+			}
+		}
+		o.Ambiguous++
+		o.Class("empty-sequence:empty-alignment")
+	}
+	if c.S1 == "" && c.S2 == "" {
+		o.Class("empty-sequence:both")
+	} else {
+		o.Class("empty-sequence:one")
+	}
+	return o, nil
+}
+
 func runLibrary(c swCase) (ob obs, al align.Alignment, s1, s2 align.Sequence, err error) {
 	lastProvenance = ""
 	if c.Plan != nil {
@@ -667,27 +738,7 @@ func runLibrary(c swCase) (ob obs, al align.Alignment, s1, s2 align.Sequence, er
 		}
 	}()
 	a := align.NewPwAligner(s1, s2, align.ALIGN_ALGO_SW)
-	if len(c.Calls) > 0 {
-		for _, call := range c.Calls {
-			switch call.Kind {
-			case "open":
-				a.SetGapOpenScore(call.A)
-			case "extend":
-				a.SetGapExtendScore(call.A)
-			case "score":
-				a.SetScore(call.A, call.B)
-			}
-		}
-	} else {
-		if c.SetScoreFirst && !c.Sch.Matrix {
-			a.SetScore(c.Sch.Match, c.Sch.Mismatch)
-		}
-		a.SetGapOpenScore(c.Sch.Open)
-		a.SetGapExtendScore(c.Sch.Extend)
-		if !c.SetScoreFirst && !c.Sch.Matrix {
-			a.SetScore(c.Sch.Match, c.Sch.Mismatch)
-		}
-	}
+	configure(a, c)
 	al, err = a.Alignment()
 	if err != nil {
 		return
@@ -702,14 +753,13 @@ func runLibrary(c swCase) (ob obs, al align.Alignment, s1, s2 align.Sequence, er
 }
 
 func checkSW(c swCase) (o pbt.Outcome, err error) {
-	if len(c.S1) == 0 || len(c.S2) == 0 {
-		o.Skip = true
-		return o, nil
-	}
 	if len(c.Calls) > 0 {
 		if eff := effective(c.Calls); eff != c.Sch {
 			return o, fmt.Errorf("harness: the setter history configures %v, the case says %v", eff, c.Sch)
 		}
+	}
+	if len(c.S1) == 0 || len(c.S2) == 0 {
+		return checkEmpty(c)
 	}
 	tables, openAlphabet := tablesFor(c)
 	if c.Hist != nil {
@@ -885,10 +935,10 @@ func TestExhaustive(t *testing.T) {
 		spaces = append(spaces, space{"AaC", 4})
 	}
 	grid := schemeGrid()
-	name := fmt.Sprintf("all ordered pairs of sequences of length 1..%d over {%s}, and of length 1..4 over {a,C} and {A,a} (thorough: {A,a,C}), x %d match/mismatch/open/extend schemes", maxLen, alphabet, len(grid))
+	name := fmt.Sprintf("all ordered pairs of sequences of length 0..%d over {%s}, and of length 0..4 over {a,C} and {A,a} (thorough: {A,a,C}), x %d match/mismatch/open/extend schemes", maxLen, alphabet, len(grid))
 	pbt.Enumerate(t, name, func(yield func(swCase) bool) {
 		for _, sp := range spaces {
-			seqs := allSeqs(sp.alphabet, sp.maxLen)
+			seqs := append([]string{""}, allSeqs(sp.alphabet, sp.maxLen)...) // the sequence without residue too
 			for _, s1 := range seqs {
 				for _, s2 := range seqs {
 					for k, sch := range grid {
@@ -1195,6 +1245,17 @@ func genSW(t *rapid.T) swCase {
 		p := gen.DrawPlan(t, swAli(c), "ACGT-", 3)
 		c.Plan = &p
 	}
+	if rapid.IntRange(0, 39).Draw(t, "empty") == 0 {
+		// a sequence without residue, on one side or both
+		switch c.Plan = nil; rapid.IntRange(0, 2).Draw(t, "whichempty") {
+		case 0:
+			c.S1 = ""
+		case 1:
+			c.S2 = ""
+		default:
+			c.S1, c.S2 = "", ""
+		}
+	}
 	return c
 }
 
@@ -1410,7 +1471,7 @@ func TestCLI(t *testing.T) {
 		}
 		c.ToFile = rapid.Bool().Draw(t, "tofile")
 		// lengths beyond the FASTA writer's line width
-		if len(c.Seqs) >= 2 && rapid.IntRange(0, 9).Draw(t, "long") == 0 {
+		if len(c.Seqs) >= 2 && sw.S1 != "" && sw.S2 != "" && rapid.IntRange(0, 9).Draw(t, "long") == 0 {
 			unit := c.Seqs[0].Seq
 			for len(c.Seqs[0].Seq) < 100 {
 				c.Seqs[0].Seq += unit
@@ -1460,6 +1521,33 @@ func TestCLI(t *testing.T) {
 		r := cli.Run("", args...)
 		if r.TimedOut {
 			return o, fmt.Errorf("goalign %v does not return", args)
+		}
+		if strings.Contains(r.Stderr, "goroutine ") || strings.Contains(r.Stderr, "panic:") {
+			return o, fmt.Errorf("goalign %v: the command panics: exit %d, stderr %q", args, r.Exit, r.Stderr)
+		}
+		if len(c.Seqs) == 2 && (c.Seqs[0].Seq == "" || c.Seqs[1].Seq == "") {
+			// an entry without residue: refused with a message, or the empty alignment
+			if r.Exit != 0 {
+				if strings.TrimSpace(r.Stderr) == "" {
+					return o, fmt.Errorf("goalign %v: exit %d without any message for an empty sequence", args, r.Exit)
+				}
+				o.Class("empty-sequence:refused")
+				return o, nil
+			}
+			out := r.Stdout
+			if c.ToFile {
+				b, _ := os.ReadFile(outf)
+				out = string(b)
+			}
+			rows, _ := cli.ParseFasta(out)
+			for _, row := range rows {
+				if row.Seq != "" {
+					return o, fmt.Errorf("goalign %v: an empty input sequence, status 0 and the output %q", args, out)
+				}
+			}
+			o.Ambiguous++
+			o.Class("empty-sequence:empty-alignment")
+			return o, nil
 		}
 		if len(c.Seqs) != 2 {
 			if r.Exit == 0 {
